@@ -559,8 +559,6 @@ package bkl
 //@     invariant (= (+ (ite (= ret 0) 0 1) (countMatch (heap Document.Data) rest pat)) (countMatch (heap Document.Data) docs pat))
 //@     invariant (=> (not (= ret 0)) (= ret (firstMatch (heap Document.Data) docs pat)))
 //@     invariant (=> (= ret 0) (= (firstMatch (heap Document.Data) rest pat) (firstMatch (heap Document.Data) docs pat)))
-//@ func getWithVar(doc, docs, ec, m) (res, err)
-//@   borrowed
 
 //@ func process1ListMerge(obj, mergeFrom, mergeFromDocs, m, depth) (res, err)
 //@   property C10
@@ -664,8 +662,17 @@ package bkl
 //@ func process2String(obj, mergeFrom, mergeFromDocs, ec, depth) (res, err)
 //@   ensures (=> (escS obj) (and (not (isErr err)) (= res (VStr obj))))                    [C06] [C13]
 //@   decreases (- 1002 depth) 1
+//@   ensures (=> (and (not (and (str.prefixof "$""" obj) (str.suffixof """" obj))) (or (str.prefixof "$env:" obj) (= obj "$repeat")))      [C13] [C12]
+//@              (and (= (isErr err) (= (select (mapOf (EvalContext.Vars ec)) obj) VAbsent))
+//@                   (=> (isErr err) (= err ErrVariableNotFound))
+//@                   (=> (not (isErr err)) (= res (select (mapOf (EvalContext.Vars ec)) obj)))))
+//@   ensures (=> (and (not (and (str.prefixof "$""" obj) (str.suffixof """" obj))) (not (str.prefixof "$env:" obj)) (not (= obj "$repeat")))   [C13]
+//@              (and (not (isErr err)) (= res (VStr obj))))
 //@ func process2StringInterp(obj, mergeFrom, mergeFromDocs, ec, depth) (res, err)
 //@   decreases (- 1002 depth) 0
+//@   closure 1
+//@     guarantees (=> (isErr err@entry) (isErr err))                                                       [C13]
+//@     guarantees (=> (isErr err) (= result "{ERROR}"))                                                   [C13]
 
 //@ func Parser.loadFile(p, path, child) (res, err)
 //@   property C18
@@ -825,3 +832,24 @@ package bkl
 //
 //@ func normalizeNumber(obj) (res, err)
 //@   ensures (=> (not (isErr err)) (or ((_ is VInt) res) ((_ is VFlt) res)))                                 [C04]
+
+// ------------------------------------------------------------------------------------------------- evalcontext.go, process2.go, get.go ($env / variables, C13)
+
+//@ func envVars() (res)
+//@   ensures (= res (VMap (envFold emptyM osEnviron)))                                                       [C13]
+//@   loop 1
+//@     invariant ((_ is VMap) vars)
+//@     invariant (= (envFold (mc vars) rest) (envFold emptyM osEnviron))
+//
+//@ func EvalContext.GetVar(ec, name) (res, err)
+//@   ensures (= (isErr err) (= (select (mapOf (EvalContext.Vars ec)) name) VAbsent))                         [C13]
+//@   ensures (=> (isErr err) (= err ErrVariableNotFound))                                                    [C13]
+//@   ensures (=> (not (isErr err)) (= res (select (mapOf (EvalContext.Vars ec)) name)))                      [C13] [C12]
+//
+//@ func getWithVar(doc, docs, ec, m) (res, err)
+//@   borrowed
+//@   ensures (=> ((_ is VStr) m)                                                                             [C13]
+//@              (or (and (not (isErr err)) (strPathOK (heap Document.Data) (Document.Data doc) docs (sv m) res false))
+//@                  (and (strPathOK (heap Document.Data) (Document.Data doc) docs (sv m) VNil true)
+//@                       (= (isErr err) (= (select (mapOf (EvalContext.Vars ec)) (sv m)) VAbsent))
+//@                       (=> (not (isErr err)) (= res (select (mapOf (EvalContext.Vars ec)) (sv m)))))))
